@@ -197,10 +197,55 @@ Proof.
   - destruct (in_bytes c PATTERN_ANSI_CODE); cbn [length]; rewrite IH; reflexivity.
   - cbn [length]. rewrite IH. reflexivity.
 Qed.
-Lemma movecmd_spec s :
-  length (strip_movecmd s) = length s /\ Forall2 move_rel s (strip_movecmd s) /\ (~ In ESC s -> strip_movecmd s = s).
+(* a byte that changes is the command byte of a cursor-movement sequence: ESC, then bytes of PATTERN_ANSI_CODE only,
+   then a byte of PATTERN_ANSI_MOVECMD — which becomes 's' *)
+Definition move_seq_end (s : list Z) (i : nat) : Prop :=
+  exists j, (j < i)%nat /\ nth j s 0 = ESC /\ (forall k, (j < k < i)%nat -> in_bytes (nth k s 0) PATTERN_ANSI_CODE = true) /\
+            in_bytes (nth i s 0) PATTERN_ANSI_MOVECMD = true.
+Lemma movecmd_st_changed : forall s esc i, nth i (strip_movecmd_st esc s) 0 <> nth i s 0 ->
+  nth i (strip_movecmd_st esc s) 0 = 115 /\
+  ((esc = true /\ (forall k, (k < i)%nat -> in_bytes (nth k s 0) PATTERN_ANSI_CODE = true) /\ in_bytes (nth i s 0) PATTERN_ANSI_MOVECMD = true)
+   \/ move_seq_end s i).
 Proof.
-  split; [apply movecmd_st_length|]. split; [apply movecmd_st_rel|apply movecmd_no_esc].
+  induction s as [|c r IH]; intros esc i H; [destruct i; cbn in H; contradiction|].
+  assert (Shift : forall e, (forall i', nth i' (strip_movecmd_st e r) 0 <> nth i' r 0 ->
+             nth i' (strip_movecmd_st e r) 0 = 115 /\
+             ((e = true /\ (forall k, (k < i')%nat -> in_bytes (nth k r 0) PATTERN_ANSI_CODE = true) /\ in_bytes (nth i' r 0) PATTERN_ANSI_MOVECMD = true)
+              \/ move_seq_end r i')) -> forall i' c0, (e = true -> c0 = ESC) ->
+             nth i' (strip_movecmd_st e r) 0 <> nth i' r 0 ->
+             nth i' (strip_movecmd_st e r) 0 = 115 /\ move_seq_end (c0 :: r) (S i')).
+  { intros e He i' c0 Hc Hn. destruct (He i' Hn) as [V [[E [A B]]|[j [J1 [J2 [J3 J4]]]]]]; split; try exact V.
+    - exists 0%nat. split; [lia|]. split; [cbn; apply Hc; exact E|]. split; [|exact B].
+      intros k Hk. destruct k; [lia|]. cbn [nth]. apply A. lia.
+    - exists (S j). split; [lia|]. split; [exact J2|]. split; [|exact J4].
+      intros k Hk. destruct k; [lia|]. cbn [nth]. apply J3. lia. }
+  cbn [strip_movecmd_st] in *. destruct esc.
+  - destruct (in_bytes c PATTERN_ANSI_CODE) eqn:Ec.
+    + destruct i as [|i']; [cbn in H; contradiction|]. cbn [nth] in *.
+      destruct (IH true i' H) as [V [[_ [A B]]|M]]; split; try exact V.
+      * left. split; [reflexivity|]. split; [|exact B]. intros k Hk. destruct k; [exact Ec|]. cbn [nth]. apply A. lia.
+      * right. destruct M as [j [J1 [J2 [J3 J4]]]]. exists (S j). split; [lia|]. split; [exact J2|]. split; [|exact J4].
+        intros k Hk. destruct k; [lia|]. cbn [nth]. apply J3. lia.
+    + destruct i as [|i'].
+      * cbn [nth] in *. destruct (in_bytes c PATTERN_ANSI_MOVECMD) eqn:Em; [|contradiction].
+        split; [reflexivity|]. left. split; [reflexivity|]. split; [intros k Hk; lia|reflexivity].
+      * cbn [nth] in *. set (c' := if in_bytes c PATTERN_ANSI_MOVECMD then 115 else c) in *.
+        destruct (Shift (c' =? ESC) (IH (c' =? ESC)) i' c) as [V M]; [|exact H|split; [exact V|right; exact M]].
+        intros E. apply Z.eqb_eq in E. unfold c' in E. destruct (in_bytes c PATTERN_ANSI_MOVECMD); [discriminate|exact E].
+  - destruct i as [|i']; [cbn in H; contradiction|]. cbn [nth] in *.
+    destruct (Shift (c =? ESC) (IH (c =? ESC)) i' c) as [V M]; [|exact H|split; [exact V|right; exact M]].
+    intros E. apply Z.eqb_eq in E. exact E.
+Qed.
+Lemma movecmd_changed s i : nth i (strip_movecmd s) 0 <> nth i s 0 -> nth i (strip_movecmd s) 0 = 115 /\ move_seq_end s i.
+Proof.
+  intros H. destruct (movecmd_st_changed s false i H) as [V [[E _]|M]]; [discriminate|]. split; assumption.
+Qed.
+
+Lemma movecmd_spec s :
+  length (strip_movecmd s) = length s /\ Forall2 move_rel s (strip_movecmd s) /\ (~ In ESC s -> strip_movecmd s = s) /\
+  (forall i, nth i (strip_movecmd s) 0 <> nth i s 0 -> nth i (strip_movecmd s) 0 = 115 /\ move_seq_end s i).
+Proof.
+  split; [apply movecmd_st_length|]. split; [apply movecmd_st_rel|]. split; [apply movecmd_no_esc|apply movecmd_changed].
 Qed.
 Example movecmd_ex :
   strip_movecmd [65; 27; 91; 49; 59; 50; 72; 65; 27; 91; 51; 49; 109; 27; 65] = [65; 27; 91; 49; 59; 50; 115; 65; 27; 91; 51; 49; 109; 27; 115].
